@@ -4,5 +4,4 @@ INVARIANT AssertsOk
 INVARIANT Correct
 INVARIANT ClampedAbove
 INVARIANT NormalAtHit
-INVARIANT StepsAgree
 CHECK_DEADLOCK FALSE
